@@ -165,7 +165,7 @@ def strip_inner_attrs(src: Source, lo: int, hi: int) -> List[Tuple[int, int]]:
 CFG_FEATURE = re.compile(r'#\s*\[\s*cfg\s*\(\s*(not\s*\(\s*)?feature\s*=\s*"([^"]+)"\s*\)?\s*\)\s*\]$')
 
 
-def cfg_in_parens_edits(src: "Source", lo: int, hi: int, features, opener="(") -> List[Tuple[int, int, str]]:
+def cfg_in_parens_edits(src: "Source", lo: int, hi: int, features, opener="(", fields_only=False) -> List[Tuple[int, int, str]]:
     """T10: `#[cfg(feature = "..")]` on a fn parameter or call argument is evaluated here (the verus! macro cannot
     carry attributes on parameters): active -> attribute removed; inactive -> attribute and element removed."""
     toks = src.toks
@@ -186,6 +186,36 @@ def cfg_in_parens_edits(src: "Source", lo: int, hi: int, features, opener="(") -
             if toks[j].text == "[":
                 e = match_close(toks, j)
                 m = CFG_FEATURE.match(" ".join(text_of(src, k, e + 1).split()))
+                if m and fields_only:
+                    # inside a block `{}` only struct-literal / struct-pattern fields are handled (`name,` / `name: expr,`);
+                    # cfg-gated statements (ending in `;` or starting with a keyword) are left to the compiler
+                    q = e + 1
+                    while toks[q].kind in TRIVIA:
+                        q += 1
+                    stmt = toks[q].kind != "ident" or toks[q].text in ("let", "if", "match", "return", "for", "while", "loop", "fn", "use", "unsafe")
+                    if not stmt:
+                        d0 = q + 1
+                        while toks[d0].kind in TRIVIA:
+                            d0 += 1
+                        if toks[d0].text not in (",", ":", "}"):
+                            stmt = True
+                        else:
+                            # a statement would reach `;` before `,` / `}` at depth 0
+                            z = q
+                            while z < hi:
+                                tz = toks[z]
+                                if tz.kind == "punct":
+                                    if tz.text in "([{":
+                                        z = match_close(toks, z)
+                                    elif tz.text == ";":
+                                        stmt = True
+                                        break
+                                    elif tz.text in ",}":
+                                        break
+                                z += 1
+                    if stmt:
+                        k = e + 1
+                        continue
                 if m:
                     active = (m.group(2) in features) != bool(m.group(1))
                     if active:
@@ -298,7 +328,7 @@ class Generator:
 
         def fresh():
             return {"ret": None, "spec": [], "loops": {}, "inserts": [], "attr": [], "members": [], "drops": [], "body": None,
-                    "closures": [], "flags": [], "preloops": {}, "substs": []}
+                    "closures": [], "flags": [], "preloops": {}, "postloops": {}, "loopbodies": {}, "substs": []}
 
         opts = fresh()
         main_opts = opts
@@ -326,6 +356,10 @@ class Generator:
                 opts["loops"][int(words[1])] = payload
             elif words[0] == "preloop":
                 opts["preloops"][int(words[1])] = payload
+            elif words[0] == "postloop":
+                opts["postloops"][int(words[1])] = payload
+            elif words[0] == "loopbody":
+                opts["loopbodies"][int(words[1])] = payload
             elif words[0] == "insert":
                 m = re.match(r"insert\s+(before|after)\s+(\d+)\s+`(.*)`\s*$", h)
                 if not m:
@@ -692,7 +726,7 @@ class Generator:
             if m and ((m.group(2) in self.features) == bool(m.group(1))):
                 if "absent_in_this_config" not in unit.flags:
                     unit.flags.append("absent_in_this_config")
-        if "only=default" in flags and self.features:
+        if "only=default" in flags and "autocomplete" in self.features:
             # the unit's text under this feature set is outside the verifier's reach: its contract is *assumed* here
             flags = list(flags) + ["external_body"]
             if "external_body" not in unit.flags:
@@ -729,6 +763,7 @@ class Generator:
         # T2: drop non-cfg attributes on parameters; T10: cfg on parameters / call arguments evaluated here
         edits += [(a, b, "") for a, b in strip_inner_attrs(src, par, par_close)]
         edits += cfg_in_parens_edits(src, item.kw, item.close, self.features)
+        edits += cfg_in_parens_edits(src, body_open, item.close, self.features, opener="{", fields_only=True)
         where_k = None
         d = 0
         for k in after:
@@ -784,6 +819,13 @@ class Generator:
             ins = self._body_insertions(unit, src, body_open, body_close, opts, flags)
             ins += body_edits
             ins += [(a, b, "") for a, b in strip_inner_attrs(src, body_open, body_close) ]
+            if "hoist_nested" in flags:
+                # T7: nested fn items are extracted as units of their own; here they are removed from the body
+                for nested in parse_items(toks, body_open + 1, body_close):
+                    if nested.kind == "fn":
+                        ins = [e for e in ins if not (nested.first <= e[0] <= nested.close)]
+                        ins.append((nested.first, nested.close + 1, ""))
+                        self.dropped.append("%s: nested fn %s of %s hoisted (extracted as its own unit)" % (src.rel, nested.name, unit.name))
             unit.body_open_line = w.line
             if self.canary:
                 ins.append((body_open + 1, body_open + 1, " proof { assert(false); } "))
@@ -830,6 +872,19 @@ class Generator:
             kw, opn = loops[n - 1]
             edits.append((kw, kw, " " + "\n".join(payload).strip("\n") + " "))
             unit.insertions.append("before loop %d: ghost declarations" % n)
+        for n, payload in opts.get("loopbodies", {}).items():
+            if n > len(loops):
+                raise ShapeError("%s: unit annotates loop %d but the body has %d loops" % (unit.name, n, len(loops)))
+            kw, opn = loops[n - 1]
+            edits.append((opn + 1, opn + 1, " " + "\n".join(payload).strip("\n") + " "))
+            unit.insertions.append("start of loop %d body: ghost proof block" % n)
+        for n, payload in opts.get("postloops", {}).items():
+            if n > len(loops):
+                raise ShapeError("%s: unit annotates loop %d but the body has %d loops" % (unit.name, n, len(loops)))
+            kw, opn = loops[n - 1]
+            cls = match_close(toks, opn)
+            edits.append((cls + 1, cls + 1, " " + "\n".join(payload).strip("\n") + " "))
+            unit.insertions.append("after loop %d: ghost proof block" % n)
         desugar = [int(f.split("=")[1]) for f in flags if f.startswith("desugar_for=")]
         for n, payload in want.items():
             kw, opn = loops[n - 1]
